@@ -78,7 +78,7 @@ fn gen_impl_display_trait<T: ToTokens>(
              #error_type_path::LessOrEqualViolated=> write!(f, "{} is too big. The value must be less than {:#?}.", stringify!(#type_name), #val)
         },
         FloatValidator::Less(val) => quote! {
-             #error_type_path::LessViolated=> write!(f, "{} is too big. The value must be less or equal to {:#?}.", stringify!(#type_name), #val)
+             #error_type_path::LessViolated=> write!(f, "{} is too big. The value must be less than {:#?}.", stringify!(#type_name), #val)
         },
         FloatValidator::Predicate(_) => quote! {
              #error_type_path::PredicateViolated => write!(f, "{} failed the predicate test.", stringify!(#type_name))
